@@ -42,13 +42,15 @@ pub const MIRRORS: &[(&[&str], &str, &str, &str)] = &[
     (&["C17", "C08"], "lexer/error.rs", "contextualize", "Lexer.Context.contextualize"),
     (&["C17"], "lexer/error.rs", "from", "Lexer.Report.report (impl From<ErrorTree> for ReportData, and the other From impls of the file)"),
     (&["C17", "C08"], "lexer/util.rs", "until_next_unindented", "Lexer.Context.untilNextUnindented"),
-    (&["C08"], "validator/linking/mod.rs", "link_with_type", "Link.Chase (the supertypes visited list)"),
+    (&["C08", "C07"], "validator/linking/mod.rs", "link_with_type", "Link.Chase (the supertypes visited list); Link.Values.link (the composite arms)"),
     // values
     (&["C07"], "lexer/bit_string.rs", "bit_string_value", "Lexer.Values"),
     (&["C07"], "validator/linking/utils.rs", "bit_string_to_octet_string", "Lexer.Values"),
     (&["C07"], "validator/linking/utils.rs", "octet_string_to_bit_string", "Lexer.Values"),
     (&["C07"], "validator/linking/mod.rs", "bit_string_value_from_named_bits", "Lexer.Values"),
     (&["C07"], "generator/rasn/utils.rs", "format_oid", "Lexer.Values"),
+    (&["C07"], "validator/linking/mod.rs", "link_struct_like", "Link.Values.linkGiven / Link.Values.assemble"),
+    (&["C07"], "validator/linking/mod.rs", "link_array_like", "Link.Values.linkElems"),
     // linker
     (&["C09"], "validator/linking/mod.rs", "link_components_of", "Link.ComponentsOf"),
     (&["C09"], "validator/linking/mod.rs", "resolve_parameters", "Link.Params.instantiate"),
